@@ -657,7 +657,7 @@ def gen_cases(ctx, nbases, per_base, seed_base):
         ctx.branch("base:nl=%s" % ("CRLF" if base.nl == "\r\n" else "LF"))
         ctx.branch("base:leading-blank-lines" if base.src.startswith(("\n", "\r\n", "  \n", "  \r\n")) else "base:no-leading-blank")
         groups = [G.python_faults(base), G.structural_faults(base, rng) + G.module_level_faults(base, rng),
-                  _one_per_label(G.deep_nesting_faults(base, rng), rng, 5 if per_base else 10)]
+                  _one_per_label(G.deep_nesting_faults(base, rng), rng, 5 if per_base else 6)]
         fs = []
         for grp in groups:
             if per_base and len(grp) > per_base:
@@ -924,8 +924,8 @@ def run(ctx):
             plan = [(80, 30, 1)]
             path_every, display_every, pulled_every = 11, 41, 53
         else:
-            plan = [(40, 0, 1), (300, 40, 2)]
-            path_every, display_every, pulled_every = 3, 17, 19
+            plan = [(40, 0, 1), (230, 40, 2)]
+            path_every, display_every, pulled_every = 5, 17, 19
         for nbases, per_base, sb in plan:
             cases = gen_cases(ctx, nbases, per_base, sb)
             ctx.log("stream %d: %d faulty templates from %d bases" % (sb, len(cases), nbases))
